@@ -360,10 +360,10 @@ def valid_cases(ctx):
     all4 = [(d, list(ts)) for d in itertools.product([2, 3, 4], repeat=4)
             for k in (1, 2, 3) for ts in itertools.permutations(range(4), k)]
     if not ctx.thorough:
-        all4 = rng.sample(all4, 70)
+        all4 = rng.sample(all4, 250)
     for dims, ts in all4:
         out.append(_valid_case(dims, ts, rng.choice(DTYPES), rng.choice(_containers_for(ts))))
-    for _ in range(ctx.n(8, 300)):
+    for _ in range(ctx.n(30, 300)):
         dims = [rng.choice([2, 3, 4]) for _ in range(5)]
         k = rng.randint(1, 3)
         ts = rng.sample(range(5), k)
@@ -426,7 +426,7 @@ def malformed_cases(ctx):
     for f in fixed:
         f.update(kind="malformed", container="list", dtype=None)
         out.append(f)
-    for _ in range(ctx.n(260, 2500)):
+    for _ in range(ctx.n(500, 2500)):
         N, dims, k, ts, c = base()
         c["kind"] = "malformed"
         m = rng.choice(["count-", "count+", "range", "range-big", "neg-wrap", "neg", "neg-low", "dup", "dims",
@@ -503,7 +503,7 @@ TABLE_MAX_D = 256          # full table (all (x,y) pairs) from Coq up to this to
 TABLE_MAX_D_THOROUGH = 432
 TABLE_LIMIT = 300            # tables with more nonzero entries come back as a digest (see Model/Expand.v)
 HASH_P = 2305843009213693951
-HASH_B = (1000003, 998244353)
+HASH_B = (2 ** 31 + 1, 2 ** 37 + 2 ** 11 + 1)
 
 
 def _limit(ctx):
